@@ -34,7 +34,7 @@ fn laws(v: u32, deep: bool) -> Result<(), String> {
     if u32::from(id) != v || id != id2 || id != id3 || m::TagType::from(id) != tt {
         return Err(format!("{v}: conversions through TagTypeId do not commute with the direct ones"));
     }
-    for o in [v, v ^ 1, v.wrapping_add(1), 0, 21, 22] {
+    for o in [v, v ^ 1, v.wrapping_add(1), 0, 21, 22, v % 22, (v >> 8) % 22] {
         let e = o == v;
         let ot = m::TagType::from(o);
         let oi = m::TagTypeId::from(o);
@@ -77,7 +77,7 @@ fn laws(v: u32, deep: bool) -> Result<(), String> {
     if anamed != (1..=5).contains(&v) {
         return Err(format!("memory-area type {v}: named = {anamed}, the specification names exactly 1..=5"));
     }
-    for o in [v, v ^ 1, v.wrapping_add(1), 0, 1, 5, 6] {
+    for o in [v, v ^ 1, v.wrapping_add(1), 0, 1, 2, 3, 4, 5, 6] {
         let e = o == v;
         let oid = m::MemoryAreaTypeId::from(o);
         let ot = m::MemoryAreaType::from(oid);
@@ -142,8 +142,11 @@ fn elf_batch(start: u32, count: usize) -> Result<(), String> {
 }
 
 fn framebuffer_all() -> Result<(), String> {
-    for b in 0..=255u32 {
-        let img = mb2_model::encode::conformant_tag(8, 0xC20, 2, b);
+    for b in 0..=511u32 {
+        // with and without colour-info bytes behind the fixed part
+        let n = if b < 256 { 2 } else { 0 };
+        let b = b & 0xff;
+        let img = mb2_model::encode::conformant_tag(8, 0xC20, n, b);
         let a = Aligned::new(&{
             let mut i = img.clone();
             mb2_model::encode::pad8(&mut i, 0);
@@ -174,7 +177,7 @@ fn run(ctx: &Ctx, rep: &mut SubReport) {
     }
     if ctx.worker == 0 {
         match mb2_model::panics::catch(framebuffer_all) {
-            Some(Ok(())) => rep.evaluations += 256,
+            Some(Ok(())) => rep.evaluations += 512,
             Some(Err(msg)) => {
                 fail(rep, "framebuffer", 0, msg);
                 return;
